@@ -184,7 +184,8 @@ def vector_task(key):
                 x = g.eval(xh).reshape(2, 1)
                 for j, e in enumerate(m.leaf_elements):
                     n += 1
-                    if vec[j] != SL.evaluate(e, t, xh, x):
+                    ev = SL.evaluate(e, t, xh, x)
+                    if abs(vec[j] - ev) > 1e-11 * max(abs(ev), 1e-9):  # far below the accuracy the property demands of either
                         viols.append(('evaluate_vector-differs', {'curve': key[0], 'tgrid': key[1], 'level': lvl, 't': t, 'x_hat': xh, 'j': j}))
     return n, viols[:3]
 
